@@ -254,47 +254,77 @@ pub fn io_cfg(tag: &'static str, rr: (u64, u64, u64)) -> SharedCfg {
     SharedCfg::new(tag).add(cfg).into()
 }
 
-pub async fn run_case(c: &Fields) -> Fields {
-    let cfg = c.first().cloned().unwrap_or_default();
-    let g = |i: usize| cfg.get(i).copied().unwrap_or(0);
-    let ka = g(0);
-    let frame_len = g(1).max(1) as usize;
-    let env = Env::new(g(2), g(3) == 1);
+/// polls the wrapped future under catch_unwind
+struct CatchPanic<F>(std::pin::Pin<Box<F>>);
 
-    let (client, server) = IoTest::create();
-    client.remote_buffer_cap(1 << 20);
-    let reader = client.clone();
-    let mut client = Some(client);
-    let io = Io::new(server, io_cfg("IS", (g(4), g(5), g(6))));
-    let ioref = io.get_ref();
-    let io: IoBoxed = io.into();
+impl<F: Future> Future for CatchPanic<F> {
+    type Output = Option<F::Output>;
+    fn poll(mut self: std::pin::Pin<&mut Self>, cx: &mut std::task::Context<'_>) -> Poll<Self::Output> {
+        let inner = &mut self.0;
+        match std::panic::catch_unwind(std::panic::AssertUnwindSafe(|| inner.as_mut().poll(cx))) {
+            Ok(Poll::Ready(v)) => Poll::Ready(Some(v)),
+            Ok(Poll::Pending) => Poll::Pending,
+            Err(_) => Poll::Ready(None),
+        }
+    }
+}
 
-    let disp = verif_hooks::dispatcher(
-        io,
-        FrameCodec::new(frame_len),
-        ReqSrv(env.clone()),
-        CtlSrv(env.clone()),
-        Seconds(ka as u16),
-    );
-    let finished = Rc::new(Cell::new(0u64));
-    let f2 = finished.clone();
-    let kill: Gates<u64> = Gates::new();
-    let k2 = kill.clone();
-    let handle = ntex::rt::spawn(async move {
-        let run = async move {
-            let r = disp.await;
-            f2.set(if r.is_ok() { 1 } else { 2 });
-        };
-        let _ = ntex_util::future::select(Box::pin(run), Box::pin(k2.wait(0))).await;
-    });
-    settle().await;
+/// one running scenario: the dispatcher over an in-memory transport plus the harness' handles on it
+pub struct Scn {
+    env: Rc<Env>,
+    client: Option<IoTest>,
+    reader: IoTest,
+    ioref: ntex_io::IoRef,
+    finished: Rc<Cell<u64>>,
+    kill: Gates<u64>,
+    handle: Option<ntex::rt::JoinHandle<()>>,
+    seen: Vec<u8>,
+}
 
-    let mut seen: Vec<u8> = Vec::new();
-    let mut obs = Fields::new();
-    for op in c.iter().skip(1) {
+impl Scn {
+    pub async fn start(cfg: &[u64]) -> Scn {
+        let g = |i: usize| cfg.get(i).copied().unwrap_or(0);
+        let ka = g(0);
+        let frame_len = g(1).max(1) as usize;
+        let env = Env::new(g(2), g(3) == 1);
+
+        let (client, server) = IoTest::create();
+        client.remote_buffer_cap(1 << 20);
+        let reader = client.clone();
+        let io = Io::new(server, io_cfg("IS", (g(4), g(5), g(6))));
+        let ioref = io.get_ref();
+        let io: IoBoxed = io.into();
+
+        let disp = verif_hooks::dispatcher(
+            io,
+            FrameCodec::new(frame_len),
+            ReqSrv(env.clone()),
+            CtlSrv(env.clone()),
+            Seconds(ka as u16),
+        );
+        let finished = Rc::new(Cell::new(0u64));
+        let f2 = finished.clone();
+        let kill: Gates<u64> = Gates::new();
+        let k2 = kill.clone();
+        let handle = ntex::rt::spawn(async move {
+            let run = async move {
+                // a panic inside Dispatcher::poll is contained here: observation 9999
+                match CatchPanic(Box::pin(disp)).await {
+                    Some(r) => f2.set(if r.is_ok() { 1 } else { 2 }),
+                    None => f2.set(9999),
+                }
+            };
+            let _ = ntex_util::future::select(Box::pin(run), Box::pin(k2.wait(0))).await;
+        });
+        settle().await;
+        Scn { env, client: Some(client), reader, ioref, finished, kill, handle: Some(handle), seen: Vec::new() }
+    }
+
+    pub fn apply(&mut self, op: &[u64]) {
+        let env = &self.env;
         match op.first() {
             Some(1) => {
-                if let Some(cl) = &client {
+                if let Some(cl) = &self.client {
                     cl.write(op[1..].iter().map(|b| *b as u8).collect::<Vec<u8>>());
                 }
             }
@@ -305,15 +335,15 @@ pub async fn run_case(c: &Fields) -> Fields {
                     }
                 }
             }
-            Some(3) => drop(client.take()),
+            Some(3) => drop(self.client.take()),
             Some(4) => {
-                if let Some(cl) = &client {
+                if let Some(cl) = &self.client {
                     cl.read_error(std::io::Error::other("verif"));
                 }
             }
             Some(5) => env.ctl_gate.open(0, op.get(1).copied().unwrap_or(0)),
-            Some(6) => ioref.close(),
-            Some(7) => ioref.terminate(),
+            Some(6) => self.ioref.close(),
+            Some(7) => self.ioref.terminate(),
             Some(8) => {
                 env.ready_mode.set(op.get(1).copied().unwrap_or(0));
                 if op.len() < 3 {
@@ -326,7 +356,7 @@ pub async fn run_case(c: &Fields) -> Fields {
                 }
             }
             Some(9) => {
-                ioref.notify_timeout();
+                self.ioref.notify_timeout();
                 if let Some(w) = env.disp_waker.borrow().clone() {
                     w.wake();
                 }
@@ -340,22 +370,46 @@ pub async fn run_case(c: &Fields) -> Fields {
             Some(11) => env.sd_gate.open(0, 0),
             _ => {}
         }
-        settle().await;
-        seen.extend_from_slice(&reader.read_any());
-        let th = ioref.timer_handle();
-        let timer = if th.is_set() { (u64::from(th.remains().0) + 5) / 10 * 10 } else { 0 };
-        let log = env.ctl_log.borrow();
-        let mut f = vec![finished.get(), env.pending.get().max(0) as u64, timer, log.len() as u64];
-        f.extend_from_slice(&log);
-        f.extend(nums_of(&seen));
-        obs.push(f);
     }
-    kill.open(0, 0);
-    drop(client);
-    settle().await;
-    drop(handle);
-    drop(reader);
-    obs
+
+    pub fn observe(&mut self, with_timer: bool) -> Vec<u64> {
+        self.seen.extend_from_slice(&self.reader.read_any());
+        let log = self.env.ctl_log.borrow();
+        let mut f = vec![self.finished.get(), self.env.pending.get().max(0) as u64];
+        if with_timer {
+            let th = self.ioref.timer_handle();
+            f.push(if th.is_set() { (u64::from(th.remains().0) + 5) / 10 * 10 } else { 0 });
+        }
+        f.push(log.len() as u64);
+        f.extend_from_slice(&log);
+        f.extend(nums_of(&self.seen));
+        f
+    }
+
+    pub fn panicked(&self) -> bool {
+        self.finished.get() == 9999
+    }
+
+    pub async fn finish(mut self) {
+        self.kill.open(0, 0);
+        drop(self.client.take());
+        settle().await;
+        drop(self.handle.take());
+    }
+}
+
+pub async fn run_case(c: &Fields) -> Fields {
+    let cfg = c.first().cloned().unwrap_or_default();
+    let mut scn = Scn::start(&cfg).await;
+    let mut obs = Fields::new();
+    for op in c.iter().skip(1) {
+        scn.apply(op);
+        settle().await;
+        obs.push(scn.observe(true));
+    }
+    let panicked = scn.panicked();
+    scn.finish().await;
+    if panicked { vec![vec![9999]] } else { obs }
 }
 
 /// all cases of the input on single-threaded ntex runtimes; a panic escaping into the runtime ends
